@@ -23,7 +23,7 @@ REQUIRED = ["connects", "disconnects", "added", "removed", "removed_for_block", 
 
 
 def runs(tier, seed):
-    n = 1500 if tier == "thorough" else 32
+    n = 1200 if tier == "thorough" else 24
     to = 3000 if tier == "thorough" else 1200
     return [
         Run("c63_notify", cases=n, flavour="tsan", name="notify-tsan", params={"phases": 4}, timeout=to),
